@@ -227,14 +227,31 @@ def abi_corr(which):
 register('C06', corr=abi_corr('enc'),
          assumptions=['encodings below 2^32 bytes (u32 offset arithmetic of the implementation is modelled without wrap-around)',
                       'the Rust harness calls the crate\'s abi_encode/raw_abi_encode with StaticApi (native debug build)'])
-register('C07', corr=abi_corr('dec'),
+C07_ASSUMPTIONS = dict(
          assumptions=['freedom from out-of-bounds reads of the implementation rests on the managed-buffer API (load_slice/copy_slice), exercised but not proved',
                       'usize is 64-bit in the harness build; offsets are below 2^32+32 so no wrap on wasm32 either'])
+# (registered below, after the ITS world's rule text: the message-type word read by ITS execute is part of C07's observation points)
 
 
 # ------------------------------------------------------------------ trace-based correspondence (contracts in the VM)
 
-def trace_corr(mode, module, ntraces, relevant, rule, nontrivial, corpus_dir=None, monitor=None):
+def combine(*corrs):
+    """several correspondences decide one property: every part runs, the results are merged"""
+    def corr(ctx, cid, tier, seed):
+        rs = [c(ctx, cid, tier, seed) for c in corrs]
+        dist = {}
+        for i, r in enumerate(rs):
+            for k, v in r.get('distribution', {}).items():
+                dist['part%d/%s' % (i + 1, k)] = v
+        return {'evaluations': sum(r['evaluations'] for r in rs), 'distinct_nontrivial': sum(r['distinct_nontrivial'] for r in rs),
+                'rule': ' || '.join('part %d: %s' % (i + 1, r['rule']) for i, r in enumerate(rs)),
+                'samples': [x for r in rs for x in r.get('samples', [])][:4],
+                'traces_validated_against_impl': sum(r['traces_validated_against_impl'] for r in rs), 'distribution': dist,
+                'monitor_failures': [x for r in rs for x in r['monitor_failures']], 'corr_mismatches': [x for r in rs for x in r['corr_mismatches']]}
+    return corr
+
+
+def trace_corr(mode, module, ntraces, relevant, rule, nontrivial, corpus_dir=None, monitor=None, extra_args=()):
     """mode: harness mode; module: tools/<module>.py with write_case_file(path, traces);
     relevant(step_op, code) -> bool: is a mismatch with these bits inside the property's projection."""
     def corr(ctx, cid, tier, seed):
@@ -247,7 +264,7 @@ def trace_corr(mode, module, ntraces, relevant, rule, nontrivial, corpus_dir=Non
             for fn in sorted(os.listdir(cdir)):
                 rc, lines, err = ctx.run_harness([mode + '-file', os.path.join(cdir, fn)])
                 traces += [json.loads(l) for l in lines]
-        rc, lines, err = ctx.run_harness([mode, seed, n])
+        rc, lines, err = ctx.run_harness([mode, seed, n] + list(extra_args))
         if rc != 0:
             raise RuntimeError('harness %s mode failed: %s' % (mode, err[-500:]))
         traces += [json.loads(l) for l in lines]
@@ -397,10 +414,10 @@ def _govmon(tr, cid):
     return govmon.monitor(tr, cid)
 
 
-register('C11', corr=trace_corr('gov', 'govcases', (48, 900), lambda op, code: (op['op'] in ('execute', 'execProposal', 'callback') and code & 9) or (op['op'] == 'deliver' and code & 25), GOV_RULE, gov_nontrivial, monitor=_govmon),
+register('C11', corr=trace_corr('gov', 'govcases', (48, 900), lambda op, code: (op['op'] in ('execute', 'execProposal', 'callback', 'gwApprove') and code & 9) or (op['op'] == 'deliver' and code & 25), GOV_RULE, gov_nontrivial, monitor=_govmon),
          assumptions=['callbacks run to completion (gas metering is not modelled)', 'now + minimum delay below 2^64 (u64 addition)',
                       'the external target contract is abstracted to an outcome (success with return data / failure)'])
-register('C12', corr=trace_corr('gov', 'govcases', (48, 900), lambda op, code: (op['op'] in ('execute', 'execOperator', 'transferOp', 'withdraw', 'callback', 'gwApprove', 'gwValidate') and code & 27) or (op['op'] == 'withdrawRefund' and code & 17), GOV_RULE, gov_nontrivial, monitor=_govmon),
+register('C12', corr=trace_corr('gov', 'govcases', (48, 900), lambda op, code: (op['op'] in ('execute', 'execOperator', 'transferOp', 'withdraw', 'callback', 'gwApprove', 'gwValidate', 'upgrade') and code & 27) or (op['op'] == 'withdrawRefund' and code & 17), GOV_RULE, gov_nontrivial, monitor=_govmon),
          assumptions=['callbacks run to completion (gas metering is not modelled)', 'collision freedom of keccak only where C02 states it'])
 register('C16', corr=trace_corr('gov', 'govcases', (48, 900), lambda op, code: op['op'] in ('callback', 'withdrawRefund', 'execProposal', 'execOperator') and code & 25, GOV_RULE, gov_nontrivial, monitor=_govmon),
          assumptions=['whether the contract still holds the credited funds when a proposal has meanwhile moved them is outside the property'])
@@ -453,6 +470,12 @@ register('C20', corr=trace_corr('its', 'itscases', ITS_N, its_rel(None, 25), ITS
          assumptions=['metadata registration, minter approvals, role / flow-limit / trusted-address management and views are not pause-gated, following the property text'])
 
 
+# C07 part 2: get_message_type in ITS execute.  Every trace opens with the message-type battery (schedule 13): first words 2^63, 2^64, 2^255, 6, 7, 2^32 and
+# known types under non-zero high bytes (2^64+1, 2^255+5, 2^128+4, 2^192, 2^63+1), direct and inside the hub wrapper; the execute steps are compared with the model.
+register('C07', corr=combine(abi_corr('dec'),
+                             trace_corr('its-d', 'itscases', (4, 40), its_rel({'execute'}, 27), ITS_RULE, its_nontrivial, extra_args=(13,))),
+         **C07_ASSUMPTIONS)
+
 # ------------------------------------------------------------------ replay
 
 def replay(ctx, path):
@@ -462,7 +485,7 @@ def replay(ctx, path):
         return 0
     cid = j['property']
     c = j['case']
-    if cid in ('C06', 'C07'):
+    if cid in ('C06', 'C07') and 'k' in c:
         ok, out = ctx.harness_build()
         tmp = os.path.join(ctx.BUILD, 'replay_case.jsonl')
         open(tmp, 'w').write(json.dumps({k: v for k, v in c.items() if k not in ('code', 'why')}) + '\n')
